@@ -216,17 +216,31 @@ func mk(name string, order int64, friend bool) drivers.DriverCreate {
 
 var regOnce sync.Once
 
+// EnsureAllowUser (re-)appends the synthetic names to types.AllowUserExec: creating a
+// Chain33Config resets that process-wide list to "none" + the dapps of the fork config.
+func EnsureAllowUser() {
+	for _, n := range Names {
+		found := false
+		for _, a := range types.AllowUserExec {
+			if string(a) == n {
+				found = true
+			}
+		}
+		if !found {
+			types.AllowUserExec = append(types.AllowUserExec, []byte(n))
+		}
+	}
+}
+
 // Register registers the synthetic drivers (once per process) at height 0.
 func Register(cfg *types.Chain33Config) {
 	regOnce.Do(func() {
-		for _, n := range Names {
-			types.AllowUserExec = append(types.AllowUserExec, []byte(n))
-		}
 		drivers.Register(cfg, "vfa", mk("vfa", 0, false), 0)
 		drivers.Register(cfg, "vfb", mk("vfb", drivers.ExecLocalSameTime, false), 0)
 		drivers.Register(cfg, "vfc", mk("vfc", 0, true), 0)
 		drivers.Register(cfg, "vfd", mk("vfd", drivers.ExecLocalSameTime, true), 0)
 	})
+	EnsureAllowUser()
 }
 
 func (d *vfDriver) GetDriverName() string { return d.name }
